@@ -156,3 +156,32 @@ alias_char(size_t * a, unsigned char * b)
 	*b = 7;
 	return (*a);
 }
+
+/* a cursor that moves two bytes per index step: the loop invariant p == out + 2 i is an affine combination of what holds
+ * before the first and after the first iteration; the difference returned is 2 n, not n and not 3 n */
+ptrdiff_t
+two_per_step(char * out, size_t n)
+{
+	char * p = out;
+	size_t i;
+
+	for (i = 0; i < n; i++) {
+		*p++ = 'a';
+		*p++ = 'b';
+	}
+	return (p - out);
+}
+
+/* two loops in sequence: what the first establishes about its counter at exit must still be known inside the second */
+size_t
+two_loops(size_t n)
+{
+	size_t i, j, k;
+
+	k = 0;
+	for (i = 0; i < 2 * n; i++)
+		k++;
+	for (j = 0; j < n; j++)
+		continue;
+	return (k);
+}
